@@ -406,12 +406,13 @@ def seq_case(start, ops):
     cur = build(start)
     S = set(cur.triples)
     gw = e_graph(cur)
-    wops, states = [], []
+    wops, states, operands = [], [], []
     _queries(cur)        # history: queries BEFORE the operations (a result cached here must not survive them)
     for code, sb in ops:
         b = build(sb)
         cb = canon(b)
         wops.append([code, e_graph(b)])
+        operands.append((b, cb))
         prev, cprev = cur, canon(cur)
         if code == 0:
             cur = cur | b
@@ -432,6 +433,10 @@ def seq_case(start, ops):
             fails.append(('union' if code < 2 else 'difference',
                           f'after {len(states) + 1} operations the triple set {sorted(map(repr, set(cur.triples)))} is not the set-algebra value {sorted(map(repr, S))}'))
         states.append(e_graph(cur))
+    for k, (b, cb) in enumerate(operands):
+        if canon(b) != cb:     # aliasing: a LATER operation on the result reached an EARLIER right operand
+            fails.append(('operand-mutated', f'the right operand of operation {k + 1} was changed by a later operation of the sequence'))
+            break
     from penman.graph import Graph
     fresh = Graph(list(cur.triples), top=cur._top, epidata=cur.epidata)
     if _queries(cur) != _queries(fresh):
@@ -637,7 +642,7 @@ def run(chk):
     seqs = []
     nseq = 15000 if quick else 100000
     for _ in range(nseq):
-        start = mk_spec(rng, rand_list(rng, maxlen), rng.choice(TOPS))
+        start = mk_spec(rng, rand_list(rng, maxlen) if rng.random() > .15 else [], rng.choice(TOPS))   # 15%: an EMPTY left operand
         ops = [(rng.randrange(4), mk_spec(rng, rand_list(rng, 3), rng.choice(TOPS))) for _ in range(rng.randint(1, 4))]
         seqs.append((start, ops))
         chk.count(('seq', json.dumps([start, ops], sort_keys=True)))
